@@ -1051,22 +1051,31 @@ def epub_roles():
     if hd is None or he is None:
         raise X.Unsupported("epub handlers not found")
     self_attr = lambda e: e.attr if isinstance(e, ast.Attribute) and isinstance(e.value, ast.Name) and e.value.id == "self" else None
-    joined = {self_attr(x.args[0]) for x in ast.walk(he) if isinstance(x, ast.Call) and isinstance(x.func, ast.Attribute) and x.func.attr == "join" and x.args} - {None}
-    appended = lambda fn, pred: {self_attr(x.func.value) for x in ast.walk(fn) if isinstance(x, ast.Call) and isinstance(x.func, ast.Attribute)
-                                 and x.func.attr == "append" and x.args and pred(x.args[0])} - {None}
-    rows = appended(he, lambda a: isinstance(a, ast.Name))
-    data_sinks = appended(hd, lambda a: isinstance(a, ast.Name))
-    titles = {self_attr(x.target) for x in ast.walk(hd) if isinstance(x, ast.AugAssign)} - {None}
+
+    def reach(node, depth=2):
+        """Nodes of `node` and of the methods of the same class it calls through self (helpers executed in place)."""
+        for x in ast.walk(node):
+            yield x
+            if depth and isinstance(x, ast.Call) and self_attr(x.func):
+                callee = mod.functions.get(f"{C.ECLS}.{x.func.attr}")
+                if callee is not None:
+                    yield from reach(callee, depth - 1)
+    is_app = lambda x: isinstance(x, ast.Call) and isinstance(x.func, ast.Attribute) and x.func.attr == "append" and x.args and self_attr(x.func.value)
+    joined = {self_attr(x.args[0]) for x in reach(he) if isinstance(x, ast.Call) and isinstance(x.func, ast.Attribute) and x.func.attr == "join" and x.args} - {None}
+    # the row receives a computed text (a local or a call result), not a constant and not another buffer of the parser
+    rows = {self_attr(x.func.value) for x in reach(he) if is_app(x) and not isinstance(x.args[0], ast.Constant) and not self_attr(x.args[0])}
+    data_sinks = {self_attr(x.func.value) for x in reach(hd) if is_app(x) and isinstance(x.args[0], ast.Name)}
+    titles = {self_attr(x.target) for x in reach(hd) if isinstance(x, ast.AugAssign)} - {None}
     if len(joined) != 1 or len(rows) != 1 or len(titles) != 1 or len(data_sinks - joined) != 1 or not (joined <= data_sinks):
         raise X.Unsupported(f"epub parser roles not recognised: joined={sorted(joined)} rows={sorted(rows)} titles={sorted(titles)} sinks={sorted(data_sinks)}")
     cell, row, title, text = next(iter(joined)), next(iter(rows)), next(iter(titles)), next(iter(data_sinks - joined))
 
     def guard_of(fn, hit):
-        for n in ast.walk(fn):
-            if isinstance(n, ast.If) and self_attr(n.test) and any(hit(x) for b in n.body for x in ast.walk(b)):
+        for n in reach(fn):
+            if isinstance(n, ast.If) and self_attr(n.test) and any(hit(x) for b in n.body for x in reach(b)):
                 return self_attr(n.test)
         return None
-    in_cell = guard_of(hd, lambda x: isinstance(x, ast.Call) and isinstance(x.func, ast.Attribute) and x.func.attr == "append" and self_attr(x.func.value) == cell)
+    in_cell = guard_of(hd, lambda x: is_app(x) and self_attr(x.func.value) == cell)
     in_title = guard_of(hd, lambda x: isinstance(x, ast.AugAssign) and self_attr(x.target) == title)
     in_table = guard_of(he, lambda x: isinstance(x, ast.Call) and isinstance(x.func, ast.Attribute) and x.func.attr == "join")
     if not (in_cell and in_title and in_table):
